@@ -1,2 +1,30 @@
-(* placeholder until SlabProofs.v is written *)
-From FV Require Import Slab.SlabModel.
+(* C02 -- slab pool: realloc/free semantics, content stability, bounded footprint. *)
+From Coq Require Import List NArith Bool.
+From FV Require Import Slab.SlabModel Slab.SlabBasics.
+Import ListNotations.
+Local Open Scope N_scope.
+
+(* the special cases of realloc/free/deallocate, for every state *)
+Theorem C02_null_and_zero_cases :
+  forall c s,
+    (forall n e, step c s (Realloc 0 n e) = step c s (Alloc n e))
+    /\ step c s (Free 0) = (s, RUnit, [])
+    /\ (forall n, step c s (Dealloc 0 n) = (s, RUnit, []))
+    /\ (forall p e, p <> 0 ->
+          st_of (step c s (Realloc p 0 e)) = st_of (step c s (Free p))
+          /\ cbs_of (step c s (Realloc p 0 e)) = cbs_of (step c s (Free p))
+          /\ (res_of (step c s (Free p)) = RUnit -> res_of (step c s (Realloc p 0 e)) = RNull)).
+Proof.
+  intros c s. split; [intros; apply realloc_null_is_alloc|].
+  split; [apply free_null_identity|]. split; [intros; apply dealloc_null_identity|].
+  intros p e Hp. apply realloc_zero_is_free. assumption.
+Qed.
+Print Assumptions C02_null_and_zero_cases.
+
+Definition c02_cfg : cfg := mkCfg 4096 4096 4096 4 true true 40 104.
+Example C02_null_cases_nonvacuous :
+  let s := run c02_cfg [Alloc 24 (MapRet 4096)] in
+  res_of (step c02_cfg s (Realloc 8160 0 MapFail)) = RNull
+  /\ live (st_of (step c02_cfg s (Realloc 8160 0 MapFail))) = []
+  /\ res_of (step c02_cfg s (Realloc 0 0 (MapRet 8192))) = RPtr 12280.
+Proof. vm_compute. repeat split; reflexivity. Qed.
